@@ -176,6 +176,13 @@ public:
 	outfile.close();
 	if (!ok)
 	  return false;
+	if (!outfile)
+	  {
+	    // The data was buffered and the failure only showed up
+	    // when the file was flushed and closed.
+	    std::cerr << output_body_file << ": " << strerror(errno) << "\n";
+	    return false;
+	  }
 	const string inf_file_name = output_body_file + ".inf";
 	if (!create_inf_file(inf_file_name, crc.get(), entry))
 	  {
